@@ -329,3 +329,5 @@ func constantToInt64(v constant.Value) (int64, bool) {
 	}
 	return constant.Int64Val(v)
 }
+
+type packagesPackage = packages.Package
